@@ -361,6 +361,20 @@ Definition parse_streaminf (line uri : str) : res Variant :=
               {| si_fr := None; si_audio := None; si_subs := None; si_cc := None |} in
   let! sd := parse_stream_data rest in
   Ok (VStreamInf uri (si_fr a) (si_audio a) (si_subs a) (si_cc a) sd).
+(* VariantStream::try_from on an arbitrary string (the public entry point): the I-frame
+   form, or a STREAM-INF line followed by its URI line *)
+Definition parse_variant (s : str) : res Variant :=
+  if is_ok (tag s pfx_VariantStream_EXTXIFRAME) then parse_iframe s
+  else
+    let! rest := tag s pfx_VariantStream_EXTXSTREAMINF in
+    match std_lines rest with
+    | first :: uri :: _ =>
+        let! a := fold_res si_attr (attr_pairs first)
+                    {| si_fr := None; si_audio := None; si_subs := None; si_cc := None |} in
+        let! sd := parse_stream_data first in
+        Ok (VStreamInf uri (si_fr a) (si_audio a) (si_subs a) (si_cc a) sd)
+    | _ => Err
+    end.
 Definition s_cFRAME_RATE := Eval vm_compute in lit ",FRAME-RATE=".
 Definition s_cAUDIO := Eval vm_compute in lit ",AUDIO=".
 Definition s_cSUBTITLES := Eval vm_compute in lit ",SUBTITLES=".
